@@ -13,7 +13,9 @@ from fractions import Fraction
 from vlib import core
 from translate import t3_expr, t4_loops
 
-ALLOWED = sorted(core.STDLIB_REAL_AXIOMS) + ['Axioms']   # 'Axioms' = header line of Print Assumptions' output (parser artefact)
+# the two *_binary64_refuted witnesses compute with Coq's primitive floats: kernel primitives, listed by Print Assumptions
+PRIMFLOAT = ['PrimFloat.float', 'PrimFloat.add', 'PrimFloat.sub', 'PrimFloat.mul', 'PrimFloat.ltb', 'PrimFloat.leb', 'PrimFloat.eqb']
+ALLOWED = sorted(core.STDLIB_REAL_AXIOMS) + PRIMFLOAT
 TAU_BITS = 40
 
 
@@ -73,6 +75,7 @@ def run(ctx):
               'translator T4 (translate/t4_loops.py): HyperSpace.check_limits/_initialize_agents -> Gen/ClipLoops.v',
               'harness/c13.py (float-level oracle, input generators, failure classifier)',
               'Coq stdlib axioms of the classical reals under the span theorems; the unit-box theorems are closed under the global context',
+              'Coq primitive floats (kernel binary64 arithmetic) under the two *_binary64_refuted witnesses only',
               'Interval (validation run only)')
     # 1. regenerate
     text, items, errors = t3_expr.generate_span(core.REPO)
@@ -176,6 +179,13 @@ def run(ctx):
                            'exists v, span a lbs ubs j = Some v /\\ nth j lbs 0 <= v <= nth j ubs 0'})
     ctx.sample({'theorem': 'C13_hyper_check_limits_unit_box : forall lbs ubs c, length ubs = length lbs -> length c = length lbs -> no_nan c = true -> '
                            'unit_box (run_cl hyper_check_limits lbs ubs c) = true'})
+
+
+def regenerate():
+    text, items, errors = t3_expr.generate_span(core.REPO)
+    if text is not None:
+        core.write_if_changed(os.path.join(core.GEN, 'Span.v'), text)
+    return errors
 
 
 def replay(ctx, path):
